@@ -5,7 +5,7 @@ CONSTANTS
   PIDs = {1, 2}
   NumLines = 2
   SharedLines = 2
-  MaxRC = 2
+  MaxRC = 1
 VIEW View
 ACTION_CONSTRAINT Emit
 INVARIANT InvWellFormed
